@@ -27,6 +27,8 @@ def parse_pattern(p):
     i = 0
     while i < len(p):
         ch = p[i]
+        if ch in "acgt":
+            ch = ch.upper()      # patterns are matched case-insensitively
         if ch == "(":
             toks.append(("open",))
             i += 1
@@ -77,7 +79,7 @@ def run_length(tok, drawn):
 
 def pick(code, filler):
     """Map a filler nucleotide to a member of the IUPAC set of ``code``."""
-    s = dna.IUPAC[code]
+    s = dna.IUPAC[code.upper()]
     return s[ACGT.index(filler.upper()) % len(s)]
 
 
